@@ -134,7 +134,7 @@ def run(ctx):
     from checks import c07
     scs, r = progcheck.tlc_scenarios(ctx, "Scope", c07.cfg("all" if thorough else "quick"), "c12_scope")
     total += len(scs)
-    scs = [sc for sc in scs if sc["slot"] not in ("F0", "F0d", "G0") and sc.get("slot2") != "F0" and sc["kind"] in ("IMM01", "CTOR01", "CTOR03", "TONL01", "TONL02", "PKGO01", "PKGO03")]
+    scs = [sc for sc in scs if not sc.get("ld") and sc["slot"] not in ("F0", "F0d", "G0") and sc.get("slot2") != "F0" and sc["kind"] in ("IMM01", "CTOR01", "CTOR03", "TONL01", "TONL02", "PKGO01", "PKGO03")]
     pick = progcheck.sample(scs, 3000 if thorough else 500, ctx.seed)
     items = []
     for i, sc in enumerate(pick):
